@@ -66,12 +66,10 @@ Definition fast_skel (vs : list nat) (s : list (nat * nat)) : bool :=
        pdag_eqb (meek_model (pattern_of d)) (ess_with (filter (same_vstructs d) dags) d)
      else false) dags.
 
-Lemma fast_skel_sound vs s : fast_skel vs s = true -> forall d, In d (skel_dags vs s) -> complete_check d = true.
+Lemma class_sound vs s d : In d (skel_dags vs s) -> udedup (D d) = D d ->
+  essential_graph d = ess_with (filter (same_vstructs d) (skel_dags vs s)) d.
 Proof.
-  intros H d Hd. unfold fast_skel in H. rewrite forallb_forall in H. specialize (H d Hd).
-  destruct (plist_eqb (udedup (D d)) (D d)) eqn:Eu; [|discriminate]. apply plist_eqb_eq in Eu.
-  unfold complete_check. rewrite essential_graph_ess_with.
-  rewrite (ess_with_seteq (meq_dags d) (filter (same_vstructs d) (skel_dags vs s)) d); [exact H|].
+  intros Hd Eu. rewrite essential_graph_ess_with. apply ess_with_seteq.
   unfold skel_dags in Hd. apply filter_In in Hd. destruct Hd as [Hd _].
   apply in_map_iff in Hd. destruct Hd as [o [<- Ho]].
   intros x. unfold meq_dags, candidates, skeleton_of, skel_dags. simpl in *. rewrite Eu.
@@ -80,6 +78,88 @@ Proof.
     exists o'. split; [reflexivity|]. apply (orientations_flip s o Ho). exact Ho'.
   - intros [[[o' [<- Ho']] Ha] Hv]. split; [|split; assumption].
     exists o'. rewrite app_nil_r. split; [reflexivity|]. apply (orientations_flip s o Ho). exact Ho'.
+Qed.
+
+Lemma fast_skel_sound vs s : fast_skel vs s = true -> forall d, In d (skel_dags vs s) -> complete_check d = true.
+Proof.
+  intros H d Hd. unfold fast_skel in H. rewrite forallb_forall in H. specialize (H d Hd).
+  destruct (plist_eqb (udedup (D d)) (D d)) eqn:Eu; [|discriminate]. apply plist_eqb_eq in Eu.
+  unfold complete_check. rewrite (class_sound vs s d Hd Eu). exact H.
+Qed.
+
+(* ---- the same with one v-structure signature per DAG instead of one same_vstructs call per pair of DAGs ---- *)
+Fixpoint blist_eqb (l m : list bool) : bool :=
+  match l, m with
+  | [], [] => true
+  | a :: l', b :: m' => if Bool.eqb a b then blist_eqb l' m' else false
+  | _, _ => false
+  end.
+
+Definition sigb (vs : list nat) (g : mgraph) : list bool :=
+  flat_map (fun a => flat_map (fun c => map (fun b => vstructb g a c b) vs) vs) vs.
+
+Lemma forallb_ext2 {A} (f g : A -> bool) l : (forall x, f x = g x) -> forallb f l = forallb g l.
+Proof. intros H. induction l as [|a l IH]; simpl; [reflexivity|]. rewrite H, IH. reflexivity. Qed.
+
+Lemma blist_map {A} (f g : A -> bool) l :
+  forallb (fun b => Bool.eqb (f b) (g b)) l = blist_eqb (map f l) (map g l).
+Proof. induction l as [|a l IH]; simpl; [reflexivity|]. rewrite IH. destruct (Bool.eqb (f a) (g a)); reflexivity. Qed.
+
+Lemma blist_app l1 : forall m1 l2 m2, length l1 = length m1 ->
+  blist_eqb (l1 ++ l2) (m1 ++ m2) = blist_eqb l1 m1 && blist_eqb l2 m2.
+Proof.
+  induction l1 as [|a l1 IH]; intros [|b m1] l2 m2 H; simpl in *; try discriminate; [reflexivity|].
+  destruct (Bool.eqb a b); [apply IH; lia|reflexivity].
+Qed.
+
+Lemma blist_flat {A} (F G : A -> list bool) l : (forall x, length (F x) = length (G x)) ->
+  forallb (fun x => blist_eqb (F x) (G x)) l = blist_eqb (flat_map F l) (flat_map G l).
+Proof.
+  intros H. induction l as [|a l IH]; simpl; [reflexivity|]. rewrite blist_app by apply H. rewrite IH. reflexivity.
+Qed.
+
+Lemma flat_map_len {A B} (F G : A -> list B) l : (forall x, length (F x) = length (G x)) ->
+  length (flat_map F l) = length (flat_map G l).
+Proof. intros H. induction l as [|a l IH]; simpl; [reflexivity|]. rewrite !app_length, H, IH. reflexivity. Qed.
+
+Lemma same_vstructs_sig p d : same_vstructs p d = blist_eqb (sigb (V p) p) (sigb (V p) d).
+Proof.
+  unfold same_vstructs, sigb. rewrite <- blist_flat.
+  - apply forallb_ext2. intros a. rewrite <- blist_flat.
+    + apply forallb_ext2. intros c. apply blist_map.
+    + intros c. rewrite !map_length. reflexivity.
+  - intros a. apply flat_map_len. intros c. rewrite !map_length. reflexivity.
+Qed.
+
+Lemma table_filter {A B} (h : A -> B) (P : B -> bool) (l : list A) :
+  map fst (filter (fun r => P (snd r)) (map (fun m => (m, h m)) l)) = filter (fun m => P (h m)) l.
+Proof.
+  induction l as [|a l IH]; simpl; [reflexivity|]. destruct (P (h a)); simpl; rewrite IH; reflexivity.
+Qed.
+
+Lemma skel_dags_V vs s d : In d (skel_dags vs s) -> V d = vs.
+Proof. unfold skel_dags. rewrite filter_In, in_map_iff. intros [[o [<- _]] _]. reflexivity. Qed.
+
+Definition fast_skel_sig (vs : list nat) (s : list (nat * nat)) : bool :=
+  let tab := map (fun d => (d, sigb vs d)) (skel_dags vs s) in
+  forallb (fun row : mgraph * list bool =>
+     let d := fst row in
+     if plist_eqb (udedup (D d)) (D d) then
+       pdag_eqb (meek_model (pattern_of d))
+                (ess_with (map fst (filter (fun r : mgraph * list bool => blist_eqb (snd row) (snd r)) tab)) d)
+     else false) tab.
+
+Lemma fast_skel_sig_sound vs s : fast_skel_sig vs s = true -> forall d, In d (skel_dags vs s) -> complete_check d = true.
+Proof.
+  intros H d Hd. unfold fast_skel_sig in H. rewrite forallb_forall in H.
+  specialize (H (d, sigb vs d)). simpl in H.
+  assert (Hrow : In (d, sigb vs d) (map (fun d => (d, sigb vs d)) (skel_dags vs s))).
+  { apply in_map_iff. exists d. split; [reflexivity|exact Hd]. }
+  specialize (H Hrow).
+  destruct (plist_eqb (udedup (D d)) (D d)) eqn:Eu; [|discriminate]. apply plist_eqb_eq in Eu.
+  unfold complete_check. rewrite (class_sound vs s d Hd Eu).
+  rewrite (table_filter (sigb vs) (blist_eqb (sigb vs d))) in H.
+  erewrite filter_ext; [exact H|]. intros d'. rewrite same_vstructs_sig, (skel_dags_V vs s d Hd). reflexivity.
 Qed.
 
 (* every member of dir_choices is an orientation of a sub-skeleton *)
@@ -111,13 +191,13 @@ Proof.
   unfold skel_dags. apply filter_In. split; [apply in_map; exact Hos|exact Ha].
 Qed.
 
-Lemma fast_sound n ss : (forall s, In s (skeletons n) -> In s ss) -> forallb (fast_skel (nodes n)) ss = true ->
+Lemma fast_sound n ss : (forall s, In s (skeletons n) -> In s ss) -> forallb (fast_skel_sig (nodes n)) ss = true ->
   forall d, In d (all_dags n) -> complete_check d = true.
 Proof.
   intros Hcov H d Hd. destruct (all_dags_skel n d Hd) as [s [Hs Hds]].
-  rewrite forallb_forall in H. apply (fast_skel_sound (nodes n) s (H s (Hcov s Hs)) d Hds).
+  rewrite forallb_forall in H. apply (fast_skel_sig_sound (nodes n) s (H s (Hcov s Hs)) d Hds).
 Qed.
 
 (* sanity: the table-driven check on n = 4 *)
-Lemma fast_4 : forallb (fast_skel (nodes 4)) (skeletons 4) = true.
+Lemma fast_4 : forallb (fast_skel_sig (nodes 4)) (skeletons 4) = true.
 Proof. vm_compute. reflexivity. Qed.
